@@ -38,7 +38,9 @@ REJECT_KINDS = ["other", "samename-atoms", "samename-count", "returned", "none",
 @st.composite
 def op_strategy(draw):
     k = draw(st.sampled_from(["call", "call", "call", "again", "call_ref", "reject", "reject", "mutate", "call_deg",
-                              "same_scale", "call_near", "call_near", "late_refusal"]))
+                              "same_scale", "call_near", "call_near", "late_refusal", "mutate_arg"]))
+    if k == "mutate_arg":
+        return ["mutate_arg", draw(st.integers(0, 50)), draw(gen.SEEDS)]
     if k == "late_refusal":
         return ["late_refusal", draw(gen.SEEDS), draw(st.integers(1, 99000))]
     if k == "same_scale":
@@ -182,6 +184,30 @@ def check(case):
             mol = build_molecule(rspec, coords=coords, resids=resids)
             args.append((mol, coords.copy(), resids))
             do_call(step, len(args) - 1)
+        elif kind == "mutate_arg":
+            # an argument mapped before gets another conformation IN PLACE - atom by atom through the live views, by
+            # editing the stored arrays, or residue by residue - and is mapped again (same object, new coordinates)
+            if not args:
+                continue
+            k_ = op[1] % len(args)
+            mol, _, resids = args[k_]
+            newc = _conformation(rpos, rspec["edges"], op[2])
+            with env.quiet():
+                if op[1] % 3 == 0:
+                    for at, p_ in zip(mol, newc):
+                        at.position = p_.copy()
+                elif op[1] % 3 == 1:
+                    for at, p_ in zip(mol, newc):
+                        at.position[:] = p_
+                else:
+                    j_ = 0
+                    for res in mol.residues:
+                        res.atoms_positions = newc[j_:j_ + len(res)].copy()
+                        j_ += len(res)
+            args[k_] = (mol, positions(mol).copy(), resids)
+            by_arg.pop(k_, None)
+            disturbed_since = True
+            do_call(step, k_)
         elif kind == "late_refusal":
             # a molecule of the RIGHT species in a new conformation whose residue number cannot be given to the result
             # (a numpy integer; two numbers for one residue of the target): the call is refused at its very end - or
